@@ -53,6 +53,8 @@ pub struct Source {
     signalling: bool,
     /// number of slots of the receivers' memory (ids of PDUs in flight are distinct modulo this)
     slots: usize,
+    /// also emit PDUs of 30000..65000 bytes (receivers with storage above 64 KiB)
+    big: bool,
 }
 
 impl Source {
@@ -65,7 +67,7 @@ impl Source {
         if let Label::ThreeBytesLabel(b) = labels[1] {
             labels.push(Label::SixBytesLabel([b[0], b[1], b[2], rng.byte(), rng.byte(), 1 | rng.byte()]));
         }
-        Source { enc: Encapsulator::new(DefaultCrc {}), active: Vec::new(), labels, signalling, slots: 4 }
+        Source { enc: Encapsulator::new(DefaultCrc {}), active: Vec::new(), labels, signalling, slots: 4, big: false }
     }
 
     /// fill one frame of capacity `cap`; returns frame bytes (no padding yet) and packet infos
@@ -115,7 +117,7 @@ impl Source {
                     2 => rng.range(500, 3000),
                     _ => rng.below(300),
                 };
-                let mut plen = plen;
+                let mut plen = if self.big && rng.chance(1, 5) { rng.range(30000, 65000) } else { plen };
                 let mut label = if rng.chance(1, 12) { Label::ReUse } else { self.labels[rng.below(self.labels.len())] };
                 let used: Vec<usize> = self.active.iter().map(|a| a.ctx.frag_id() as usize % self.slots).collect();
                 let slot = (0..self.slots.min(4)).find(|s| !used.contains(s)).unwrap_or(0);
@@ -168,7 +170,8 @@ impl Source {
                 } else if rng.chance(1, 12) {
                     // a long chain (extension area larger than what may be left of the PDU)
                     let mut v = Vec::new();
-                    for _ in 0..(2 + rng.below(3)) {
+                    let nchain = if rng.chance(1, 4) { 9 + rng.below(6) } else { 2 + rng.below(3) };
+                    for _ in 0..nchain {
                         let h = 2 + rng.below(4);
                         let d = rng.bytes(2 * h - 2);
                         if let Ok(e) = Extension::new(((h as u16) << 8) | rng.byte() as u16, &d) {
@@ -260,10 +263,10 @@ fn recycle(d: &mut PlainDec, r: DecRes) {
 }
 
 pub fn gens(cx: &Cx) -> Vec<crate::Gen> {
-    vec![crate::Gen { name: "frames", count: cx.n(12_000, 1_200_000), exhaustive: false }, crate::Gen { name: "tails", count: cx.n(20_000, 1_000_000), exhaustive: false }, crate::Gen { name: "memfaults", count: cx.n(2_000, 200_000), exhaustive: false }]
+    vec![crate::Gen { name: "frames", count: cx.n(12_000, 1_200_000), exhaustive: false }, crate::Gen { name: "tails", count: cx.n(20_000, 1_000_000), exhaustive: false }, crate::Gen { name: "memfaults", count: cx.n(2_000, 200_000), exhaustive: false }, crate::Gen { name: "overlong", count: cx.n(150, 6_000), exhaustive: false }]
 }
 
-pub const RULE: &str = "frames: key -> a seeded traffic source (real encapsulator, up to 4 PDUs in flight on fragment ids distinct modulo the memory slots (4 slots; one run in eight 255 slots with ids 0, 255, 1, 2, where 0 and 255 share a slot), one new PDU in ten abandons a PDU in flight and takes over its fragment id with the same size and type but another label, PDUs of 0..6000 bytes, labels from a 7-label alphabet (incl. 3- and 6-byte labels sharing their leading bytes) plus explicit re-use, optional extensions, signalling protocol types 0x0081/0x0082 when the receiver uses the signalisation manager, through encap and through encap_ext with a chain ending in that final mandatory extension) fills 1..6 consecutive frames of 64..16200 bytes with up to 40 packets each (trains continue across frames, label memories reset at frame boundaries on both sides), followed by 0..64 zero bytes (one frame in ten: 4090..9000 zero bytes); some packets are then corrupted in a listed way (bad CRC trailer, another fragment id incl. ids mapping to the same memory slot) and receivers sometimes have too few or too small storage buffers (PDUs overflow at an intermediate / end fragment); a walker receiver advances by consumed lengths, a twin receiver gets each packet alone. memfaults (C10): one frame walked by a twin and a walker that sit on the same fault-injecting memory wrapper, armed to fail the same memory operation (a random one of the undisturbed walk) with each documented error: outcome and consumed length of every packet must not depend on the bytes that follow it. In frames, the application also tops both free lists up to 'full' at random points, and (C19) peeks at another packet of the same label type between the peek and the decap of a packet. tails: one packet (after its train prefix) followed by nothing / zeros / 0xFF / random bytes / another packet on identically prepared receivers. Every decap / peek call is an evaluation; non-trivial = a frame with at least 2 packets (or a tail variant set) fully compared; fingerprint = hash of the frame bytes.";
+pub const RULE: &str = "frames: key -> a seeded traffic source (real encapsulator, up to 4 PDUs in flight on fragment ids distinct modulo the memory slots (4 slots; one run in eight 255 slots with ids 0, 255, 1, 2, where 0 and 255 share a slot), one new PDU in ten abandons a PDU in flight and takes over its fragment id with the same size and type but another label, PDUs of 0..6000 bytes, labels from a 7-label alphabet (incl. 3- and 6-byte labels sharing their leading bytes) plus explicit re-use, optional extensions, signalling protocol types 0x0081/0x0082 when the receiver uses the signalisation manager, through encap and through encap_ext with a chain ending in that final mandatory extension) fills 1..6 consecutive frames of 64..16200 bytes with up to 40 packets each (trains continue across frames, label memories reset at frame boundaries on both sides), followed by 0..64 zero bytes (one frame in ten: 4090..9000 zero bytes); one receiver in twelve has storage above 64 KiB and then sees PDUs of 30000..65000 bytes; (C10) one frame in six loses a packet on the way; some packets are then corrupted in a listed way (bad CRC trailer, another fragment id incl. ids mapping to the same memory slot) and receivers sometimes have too few or too small storage buffers (PDUs overflow at an intermediate / end fragment); a walker receiver advances by consumed lengths, a twin receiver gets each packet alone; the peek is asked about the packet alone, followed by 1..16 further bytes and (one packet in forty) at the head of a 64 KiB buffer. overlong (C10): with storage above 64 KiB a reassembly of about 64000 bytes whose end was lost is continued by the fragments of another PDU of the same id until it would pass 65535 bytes, each fragment followed by a complete packet and padding. memfaults (C10): one frame walked by a twin and a walker that sit on the same fault-injecting memory wrapper, armed to fail the same memory operation (a random one of the undisturbed walk) with each documented error: outcome and consumed length of every packet must not depend on the bytes that follow it. In frames, the application also tops both free lists up to 'full' at random points, and (C19) peeks at another packet of the same label type between the peek and the decap of a packet. tails: one packet (after its train prefix) followed by nothing / zeros / 0xFF / random bytes / another packet on identically prepared receivers. Every decap / peek call is an evaluation; non-trivial = a frame with at least 2 packets (or a tail variant set) fully compared; fingerprint = hash of the frame bytes.";
 
 pub fn run_key(cx: &Cx, mask: u32, gen: &str, key: u64, rep: &mut Report) {
     let replay_s = format!("gen={} key={} seed={} profile={}", gen, key, cx.seed, cx.profile);
@@ -274,12 +277,17 @@ pub fn run_key(cx: &Cx, mask: u32, gen: &str, key: u64, rep: &mut Report) {
     let nbuf = [1usize, 2, 6, 6, 6][rng.below(5)];
     // storage sized for the largest PDU, or (one receiver in four) much smaller: long PDUs then overflow the
     // storage at an intermediate / end fragment and are rejected there
-    let storage = if rng.chance(1, 4) { 700 } else { 6000 };
+    let storage = match rng.below(12) {
+        0..=2 => 700,
+        3 => 70000,
+        _ => 6000,
+    };
     // 4-slot memories; one run in eight uses 255 slots, where fragment ids 0 and 255 share a slot
     let slots = if rng.chance(1, 8) { 255 } else { 4 };
     let mk = |t: &MandTable| plain_dec(slots, storage, nbuf, storage, t.clone());
     let mut src = Source::new(&mut rng, true);
     src.slots = slots;
+    src.big = storage > 65536;
     match gen {
         "frames" => {
             let mut walker = mk(&table);
@@ -295,6 +303,17 @@ pub fn run_key(cx: &Cx, mask: u32, gen: &str, key: u64, rep: &mut Report) {
                 let (mut frame, mut infos) = src.fill(&mut rng, cap, maxp, rep);
                 if infos.is_empty() {
                     continue;
+                }
+                // a packet lost on the way (C10 only: the association oracle of C19 assumes every packet arrives)
+                if mask & M_C19 == 0 && infos.len() >= 2 && rng.chance(1, 6) {
+                    let v = rng.below(infos.len());
+                    let (o, l) = (infos[v].off, infos[v].len);
+                    frame.drain(o..o + l);
+                    infos.remove(v);
+                    for inf in infos[v..].iter_mut() {
+                        inf.off -= l;
+                    }
+                    rep.count("frames.packet-lost");
                 }
                 // listed corruptions
                 for inf in infos.iter_mut() {
@@ -418,6 +437,57 @@ pub fn run_key(cx: &Cx, mask: u32, gen: &str, key: u64, rep: &mut Report) {
                     break;
                 }
             }
+        }
+        "overlong" => {
+            // storage above 64 KiB: PDU A (about 64000 bytes) loses its end packet, PDU B on the same fragment id loses
+            // its first fragment; B's fragments are appended to A's reassembly until the received length would pass
+            // 65535 bytes; each of B's packets is followed in its frame by a complete packet and padding
+            if mask & M_C10 == 0 {
+                return;
+            }
+            use crate::train::build_train;
+            let id = rng.byte();
+            let big = 70000usize;
+            let la = gen_label(&mut rng, 4);
+            let a_len = rng.range(63000, 65400);
+            let b_len = rng.range(1500, 6000);
+            let pa = rng.bytes(a_len);
+            let pb = rng.bytes(b_len);
+            let mut enc = Encapsulator::new(DefaultCrc {});
+            let ta = match build_train(&mut enc, &pa, id, EncapMetadata::new(0x0800, la), None, |_| 4097, 64) {
+                Ok(t) if t.complete && t.pkts.len() >= 3 => t,
+                _ => return,
+            };
+            let mut r2 = rng.clone();
+            let tb = match build_train(&mut enc, &pb, id, EncapMetadata::new(0x0801, la), None, |k| if k == 0 { 200 } else { 300 + r2.below(1500) }, 64) {
+                Ok(t) if t.complete && t.pkts.len() >= 3 => t,
+                _ => return,
+            };
+            let follow = crate::hostile::mk_complete(1, &[9, 9, 9], 0x86DD, b"after");
+            let mk2 = || plain_dec(2, big, 2, big, MandTable::none());
+            let mut twin = mk2();
+            let mut walker = mk2();
+            for p in &ta.pkts[..ta.pkts.len() - 1] {
+                let _ = dec_guard(&mut twin, p);
+                let _ = dec_guard(&mut walker, p);
+            }
+            for (k, p) in tb.pkts.iter().enumerate().skip(1) {
+                let mut frame = p.clone();
+                frame.extend_from_slice(&follow);
+                frame.extend_from_slice(&[0u8; 6]);
+                rep.evals(2);
+                let rt = dec_guard(&mut twin, p);
+                let rw = dec_guard(&mut walker, &frame);
+                let (ot, ow) = (outcome_str(&rt), outcome_str(&rw));
+                if ot != ow || consumed_of(&rw) != Some(p.len()) {
+                    rep.violation("C10", format!("overlong-reassembly:{}", if k + 1 == tb.pkts.len() { "end" } else { "intermediate" }), || format!("a reassembly of {} bytes is continued by packet {} ({} bytes) of another PDU: alone -> {}, inside a frame -> {} consuming {:?}", a_len, k, p.len(), ot, ow, consumed_of(&rw)), &replay);
+                    return;
+                }
+                recycle(&mut twin, rt);
+                recycle(&mut walker, rw);
+            }
+            rep.count("frames.overlong-runs");
+            rep.nontrivial(mix(0x0FE2, mix(key, a_len as u64)));
         }
         "memfaults" => {
             // "the outcome for a packet does not depend on the bytes that follow it", also when the memory behind the
@@ -572,7 +642,19 @@ fn check_peek(d: &PlainDec, pkt: &[u8], with_tail: &[u8], inf: &PktInfo, dres: &
     let extra = 1 + rng.below(16);
     let longer = &with_tail[..std::cmp::min(with_tail.len(), pkt.len() + extra)];
     let lt = wire::lt_of_word(u16::from_be_bytes([pkt[0], pkt[1]]));
-    for (vn, buf) in [("alone", pkt), ("followed", longer)] {
+    // one packet in forty is also presented at the head of a buffer of 64 KiB + 0..12 bytes (zero filled)
+    let huge: Vec<u8> = if rng.chance(1, 40) {
+        let mut h = pkt.to_vec();
+        h.resize(65536 + rng.below(13), 0);
+        h
+    } else {
+        Vec::new()
+    };
+    let mut views: Vec<(&str, &[u8])> = vec![("alone", pkt), ("followed", longer)];
+    if huge.len() > pkt.len() {
+        views.push(("followed-by-64KiB", &huge));
+    }
+    for (vn, buf) in views {
         rep.eval();
         let r = guard(|| d.get_label_or_frag_id(buf));
         let r = match r {
